@@ -30,6 +30,9 @@ type (
 		quitSignal      chan struct{}
 
 		disableClientSetInfo bool // special flag for redis client issue
+
+		terminating bool                    // termination was requested; no connection may stay open
+		cxns        map[*clientCxn]struct{} // the open client connections of this emulator
 	}
 )
 
@@ -96,6 +99,34 @@ func (eng *RedisEmu) RequestTermination() {
 		eng.cancelFn()
 		eng.cancelFn = nil
 	}
+
+	// existing connections are closed, whatever their clients are doing
+	eng.terminating = true
+	for cc := range eng.cxns {
+		cc.RequestClose()
+	}
+}
+
+// keeps track of the connections of this emulator, so that termination can close them
+// and wait for them
+func (eng *RedisEmu) trackCxn(cc *clientCxn) {
+	eng.mu.Lock()
+	defer eng.mu.Unlock()
+
+	if eng.cxns == nil {
+		eng.cxns = map[*clientCxn]struct{}{}
+	}
+	eng.cxns[cc] = struct{}{}
+	if eng.terminating {
+		cc.RequestClose()
+	}
+}
+
+func (eng *RedisEmu) untrackCxn(cc *clientCxn) {
+	eng.mu.Lock()
+	defer eng.mu.Unlock()
+
+	delete(eng.cxns, cc)
 }
 
 func (eng *RedisEmu) killSignalMonitor() {
@@ -227,7 +258,12 @@ func (eng *RedisEmu) startServer() {
 				break
 			}
 			eng.l.Infof("client connected: %s", connection.RemoteAddr().String())
-			newClientCxn(eng.l, connection, dispatcher)
+			eng.wg.Add(1)
+			cc := newClientCxnTracked(eng.l, connection, dispatcher, func(closed *clientCxn) {
+				eng.untrackCxn(closed)
+				eng.wg.Done()
+			})
+			eng.trackCxn(cc)
 		}
 	}()
 }
